@@ -3,7 +3,7 @@ from hypothesis import strategies as st
 
 from trie import HexaryTrie
 
-from ..faults import FaultDB, InjectedFault
+from ..faults import FAULTS, FaultDB
 from ..hexcommon import histories, mirror_fragments, simple_ops, twin_fragments
 from ..hexrun import apply_simple, check_prune, norm_counts, play, run_history
 from ..ref.mpt import RefTrie
@@ -27,6 +27,17 @@ RULE = (
     "when pruning). Non-trivial = batch has >=2 effective ops on keys that existed "
     "before the batch and an abort point strictly inside it. Distinct = canonical JSON."
 )
+def exhaustive(tier):
+    sizes = (1500, 4200) if tier == "quick" else (1500, 4200, 9000, 20000)
+
+    def gen():
+        for n in sizes:
+            for prune in (0, 1):
+                yield {"big": [n, prune]}
+
+    yield (f"very large batches ({', '.join(map(str, sizes))} sets in one squash_changes block) x prune", gen())
+
+
 LEVEL_TEXT = (
     "Fault enumeration: for each generated (prior history, batch) every exit point of "
     "the block and every failing commit write is executed, with snapshot comparison "
@@ -95,8 +106,8 @@ def _run_exit_inner(case, exit_kind, exit_arg, info):
         cm_exit("squash_changes-exit", cm, exc)
         outcome = "aborted"
     elif exit_kind == "fail":
-        db.arm(exit_arg)
-        status, exc = cm_exit("squash_changes-exit", cm, allowed=(InjectedFault,))
+        db.arm(exit_arg, case.get("exc", 0))  # the write fails with one of three exception types
+        status, exc = cm_exit("squash_changes-exit", cm, allowed=FAULTS)
         db.disarm()
         if status != "raised":
             # fewer writes than on the measured run would be non-determinism
@@ -162,8 +173,51 @@ def _run_exit(case, exit_kind, exit_arg, info):
     return _run_exit_inner(case, exit_kind, exit_arg, info)
 
 
+def _run_big(case, info):
+    """One very large batch (thousands of scratch entries) on a trie with some history."""
+    n, prune = case["big"]
+    db = FaultDB()
+    trie = impl("construct", HexaryTrie, db, prune=bool(prune))
+    model = {}
+    for i in range(40):
+        k = b"pre" + bytes([i])
+        impl("set-never-raises", trie.set, k, bytes([i]) * 33)
+        model[k] = bytes([i]) * 33
+    pre_db = dict(db)
+    cm = impl("squash_changes", trie.squash_changes)
+    b = cm_enter("squash_changes", cm)
+    for i in range(n):
+        k = b"big" + i.to_bytes(3, "big")
+        v = (i % 251).to_bytes(1, "big") * (1 + i % 40)
+        impl("set-never-raises", b.set, k, v)
+        model[k] = v
+        if i % 7 == 3:
+            d = b"big" + (i - 2).to_bytes(3, "big")
+            impl("delete-never-raises", b.delete, d)
+            model.pop(d, None)
+    cm_exit("squash_changes-exit", cm)
+    ref = RefTrie(model)
+    expect_eq("commit-adopts-canonical-root", bytes(trie.root_hash), ref.root_hash, f"outer root after a batch of {n} sets")
+    _, bodies = ref.hashed_multiset()
+    missing = [h for h, body in bodies.items() if db.get(h) != body]
+    expect("commit-stores-every-node", not missing,
+           lambda: f"{len(missing)} of {len(bodies)} nodes needed for the new root are missing after a batch of {n} sets")
+    if prune:
+        check_prune(trie, db, model, info, ref)
+    else:
+        gone = [h for h in pre_db if h not in db]
+        expect("commit-removes-nothing", not gone, lambda: f"{len(gone)} entries stored before the block were removed")
+    for k in list(model)[:: max(1, len(model) // 50)]:
+        expect_eq("get-returns-latest", impl("lookup-never-raises", trie.get, k), model[k], f"get({k!r}) after the big batch")
+    info.label("big-batch")
+    info.nontrivial = True
+    return info
+
+
 def run_case(case):
     info = Info()
+    if case.get("big"):
+        return _run_big(case, info)
     n = len(case["batch"])
     info.label("block-inside-except-handler", bool(case.get("in_handler")))
     w, eff = _run_exit(case, "commit", None, info)
